@@ -396,7 +396,13 @@ def _rewrite_block(body: List[ast.stmt], in_function: bool, stats: Dict[str, int
             st.body = inner.body
             stats["mergeif"] += 1
             continue
-        if in_function and isinstance(st, ast.If) and st.orelse and not (len(st.orelse) == 1 and isinstance(st.orelse[0], ast.If)):
+        if in_function and isinstance(st, ast.If) and st.orelse and st.body and not isinstance(st.body[-1], EXITS) and isinstance(st.orelse[-1], EXITS) \
+                and not (len(st.orelse) == 1 and isinstance(st.orelse[0], ast.If)):
+            # the exiting branch comes first: `if c: A else: ..exit`  ->  `if not c: ..exit else: A`  (then hoisted below)
+            from .canon import negate
+            st.test, st.body, st.orelse = negate(st.test), st.orelse, st.body
+            stats["flip"] += 1
+        if in_function and isinstance(st, ast.If) and st.orelse and not (len(st.orelse) == 1 and isinstance(st.orelse[0], ast.If)) and not isinstance(st.body[-1], EXITS):
             from .canon import positive_test
             pos = positive_test(st.test)
             if pos is not None:  # `if not c: A else: B` -> `if c: B else: A`
